@@ -103,7 +103,7 @@ def run(ctx):
     C15.check_r7a(ctx, f, "C37")
     # ---------------- typestate of the two transaction handles
     seen, bad = inner_emptied_only_by_consumers(f)
-    ctx.floor("Option::take on a transaction handle's inner slot", seen, 8)
+    ctx.floor("Option::take on a transaction handle's inner slot", seen, 7)
     ctx.ob("R7d", "typestate|Transaction.inner / OwnedTransaction.inner emptied only by self-consuming methods or Drop", not bad, "", "takes: %d; offending: %s" % (seen, bad))
     typestate_ok = not bad
     # ---------------- R7d inventory
